@@ -1,6 +1,9 @@
 package main
 
-import "go/ast"
+import (
+	"go/ast"
+	"strings"
+)
 
 // C12 (and C01's switchboard part): step boundaries of the session state machine in
 // internal/multiplex/session.go and switchboard.go.
@@ -94,6 +97,44 @@ func factsSession() {
 			}
 			return true
 		})
+		// what the default branch (backlog full) does with the stream: remembers the id as closed (`= nil`) and returns, or
+		// registers the stream, counts it after the unlock and closes it from this side in a goroutine of its own
+		// (the peer gets a stream-closing frame) - anything else is not recognised
+		refusal := ""
+		ast.Inspect(fn.Body, func(n ast.Node) bool {
+			sel, ok := n.(*ast.SelectStmt)
+			if !ok {
+				return true
+			}
+			for _, c := range sel.Body.List {
+				cc := c.(*ast.CommClause)
+				if cc.Comm != nil {
+					continue
+				}
+				var ss []string
+				for _, st := range cc.Body {
+					ss = append(ss, show(st))
+				}
+				j := strings.Join(ss, " ; ")
+				switch {
+				case j == "sesh.streams[frame.StreamID] = nil ; sesh.streamsM.Unlock() ; return errAcceptBacklogFull":
+					refusal = "tombstone"
+				case j == "sesh.streams[frame.StreamID] = newStream ; sesh.streamsM.Unlock() ; sesh.streamCountIncr() ; go newStream.Close() ; return errAcceptBacklogFull":
+					refusal = "close"
+				default:
+					refusal = "?"
+				}
+			}
+			return true
+		})
+		switch refusal {
+		case "tombstone":
+			boolFact(g, "refusedStreamClosedActively", false, "recvDataFromRemote, backlog full: streams[id] = nil; Unlock; return - the id is remembered as closed, the peer is told nothing")
+		case "close":
+			boolFact(g, "refusedStreamClosedActively", true, "recvDataFromRemote, backlog full: streams[id] = newStream; Unlock; streamCountIncr(); go newStream.Close(); return - registered, counted after the unlock and closed from this side (the peer gets a closing frame)")
+		default:
+			unrec(g, "refusedStreamClosedActively", "the default branch of the accept-queue select is neither of the two known refusals")
+		}
 		plainSends := count(evs, "send", `^sesh\.acceptCh <- newStream`)
 		boolFact(g, "recvEnqueueNonBlocking", nonBlocking && plainSends == 1, "recvDataFromRemote: the accept-queue send is a select case with a default branch (never blocks under streamsM)")
 		iNil := idx(evs, 0, "if", `^existingStream == nil$`)
